@@ -44,7 +44,7 @@ func (s vC15Support) SupportedChains(commontypes.OracleID) (mapset.Set[cciptypes
 func (s vC15Support) SupportsDestChain(commontypes.OracleID) (bool, error) { return true, nil }
 func (s vC15Support) KnownSourceChainsSlice() ([]cciptypes.ChainSelector, error) {
 	if s.knownErr {
-		return nil, vErr
+		return nil, vErrNext()
 	}
 	return append([]cciptypes.ChainSelector{}, s.known...), nil
 }
@@ -117,9 +117,9 @@ func (m *vC15Remote) Fn(dest cciptypes.ChainSelector, src []cciptypes.ChainSelec
 		case "ctx-canceled":
 			return nil, context.Canceled
 		case "nil-info": // an error together with a non-nil (empty) answer
-			return &readerpkg.CurseInfo{CursedSourceChains: map[cciptypes.ChainSelector]bool{}}, vErr
+			return &readerpkg.CurseInfo{CursedSourceChains: map[cciptypes.ChainSelector]bool{}}, vErrNext()
 		}
-		return nil, vErr
+		return nil, vErrNext()
 	}
 	ci := &readerpkg.CurseInfo{CursedSourceChains: map[cciptypes.ChainSelector]bool{}, CursedDestination: m.global || m.dest, GlobalCurse: m.global}
 	for _, c := range src {
@@ -150,7 +150,7 @@ func (m *vC15Remote) realRead(dest cciptypes.ChainSelector, src []cciptypes.Chai
 	}
 	switch m.kind {
 	case "rpc-plain":
-		fac.err = vErr
+		fac.err = vErrNext()
 	case "rpc-ctx":
 		fac.err = context.DeadlineExceeded
 	}
@@ -291,7 +291,7 @@ func TestVerif_C15_observe_exec(t *testing.T) {
 			},
 			CommitReportsFn: func(dest cciptypes.ChainSelector, ts time.Time, limit int) ([]plugintypes2.CommitPluginReportWithMeta, error) {
 				if pendErr {
-					return nil, vErr
+					return nil, vErrNext()
 				}
 				var out []plugintypes2.CommitPluginReportWithMeta
 				for _, c := range pending {
@@ -489,7 +489,7 @@ func TestVerif_C15_cycle_exec(t *testing.T) {
 			},
 			CommitReportsFn: func(dest cciptypes.ChainSelector, ts time.Time, limit int) ([]plugintypes2.CommitPluginReportWithMeta, error) {
 				if pendErr {
-					return nil, vErr
+					return nil, vErrNext()
 				}
 				return mkReports(), nil
 			},
